@@ -361,6 +361,18 @@ func vItoa(v int64) string {
 func vC11Str(tag string) *SexpStr {
 	r := rune(vInt32(tag))
 	vAssume(vValidRune(r))
+	// the whole of Unicode: jsonQuote and the reference reader distinguish
+	// only a handful of rune classes (control, quote/backslash, DEL.., BMP,
+	// supplementary planes), so the full range costs a few paths
+	return &SexpStr{S: "a" + string(r) + "z"}
+}
+
+// vC11StrBounded: as vC11Str with the rune below U+0250 (quick) / U+3000
+// (thorough): the round-trip harness sorts and compares the strings, which
+// multiplies the rune classes.
+func vC11StrBounded(tag string) *SexpStr {
+	r := rune(vInt32(tag))
+	vAssume(vValidRune(r))
 	if vTier() == 0 {
 		vAssume(r < 0x250)
 	} else {
@@ -508,7 +520,7 @@ func vh_C11_roundtrip() {
 	for i, n := range names {
 		kv = append(kv, sym(n))
 		if i == 0 {
-			kv = append(kv, vC11Str("r"))
+			kv = append(kv, vC11StrBounded("r"))
 		} else {
 			kv = append(kv, &SexpInt{Val: int64(i)})
 		}
